@@ -8,7 +8,7 @@
     simple_eq_generic_partial equivalent_spellings_agree self_prefix_irrelevant_nonpositional
     dslash_is_descendant simple_eq_generic_kmp simple_eq_generic_fragments_partial
     self_prefix_default_choice simple_eq_generic_fragments_pattern true_pred_default_choice
-    simple_eq_generic_spellings_partial
+    simple_eq_generic_spellings_partial simple_eq_generic_spellings_pattern
 -/
 import Genshi.Model.Path
 import Genshi.Model.PathParse
@@ -21,6 +21,7 @@ import Genshi.Lemmas.PathNonPos
 import Genshi.Lemmas.PathKmpRun
 import Genshi.Lemmas.PathFrags
 import Genshi.Lemmas.PathFragsSelf
+import Genshi.Lemmas.PathFragsPattern
 namespace Genshi.Props.C17
 open Genshi Genshi.Path
 
@@ -664,6 +665,17 @@ theorem all2_gSteps (ns : NsMap) (vs : Vars) (p1 p2 : LocPath) (h : All2 (StepEq
     · exact All2.cons (StepEq.refl ns vs dotSlash) (All2.cons hab hl)
     · exact All2.cons hab hl
 
+theorem simpleSupports_false_of_preds (p : LocPath) (s : Step) (hs : s ∈ p) (hp : s.preds ≠ []) :
+    simpleSupports p = false := by
+  cases p with
+  | nil => rfl
+  | cons s0 rest =>
+    have : s.preds.isEmpty = false := by cases hsp : s.preds <;> simp_all
+    simp only [simpleSupports, Bool.and_eq_false_iff]
+    left; right
+    rw [List.all_eq_false]
+    exact ⟨s, hs, by simp [this]⟩
+
 theorem insertPred_preds (p : LocPath) (i k : Nat) (t : Expr) (hi : i < p.length) :
     ∃ s ∈ insertPred p i k t, s.preds ≠ [] := by
   refine ⟨(insertPred p i k t)[i]'(by simp [insertPred]; exact hi), List.getElem_mem _, ?_⟩
@@ -695,16 +707,7 @@ theorem true_pred_default_choice (frags : List Frag) (hok : Frags.FragsOk frags)
       unfold singleSupports; rw [hlen]; exact beq_false_of_ne (by omega)
     have hs : simpleSupports (insertPred (Frags.normPath frags) i k t) = false := by
       obtain ⟨s, hs, hp⟩ := insertPred_preds (Frags.normPath frags) i k t hi
-      cases hq : insertPred (Frags.normPath frags) i k t with
-      | nil => rfl
-      | cons s0 rest =>
-        rw [hq] at hs
-        simp only [simpleSupports, Bool.and_eq_false_iff]
-        right
-        rw [List.all_eq_false]
-        refine ⟨s, hs, ?_⟩
-        have : s.preds.isEmpty = false := by cases hsp : s.preds <;> simp_all
-        simp [this]
+      exact simpleSupports_false_of_preds _ s hs hp
     simp [chooseStrategy, ho, List.find?, Strategy.supports, h1, hs]
   have hc2 := Frags.chooses_simple frags hok h2
   refine ⟨⟨hc1, hc2⟩, ?_⟩
@@ -765,5 +768,76 @@ example : runTest (pathTest [pathSelfMerge] false (some .simple)).1 [] []
     (pathTest [pathSelfMerge] false (some .simple)).2
     (Node.elem ⟨[], ['r']⟩ [] [Node.elem ⟨[], ['a']⟩ [] [Node.elem ⟨[], ['b']⟩ [] []]]).flatten
     = [.none, .none, .bool true, .none, .none, .none] := by decide +kernel
+
+/-! ## Pattern mode for every supported spelling -/
+
+theorem RR_patOf (ns : NsMap) (xvs : Ref.XVars) (p : LocPath) (c t : Ref.LNode) :
+    RR ns xvs (Frags.patOf p) 0 c t = Ref.reach ns xvs (Frags.patOf p) c t := by
+  cases p with
+  | nil => rfl
+  | cons s q => simp [RR, pathAt, Frags.patOf, convAxis, withAxis]
+
+/-- **simple_eq_generic in pattern mode for every supported spelling without an attribute
+    step** (`Path.test(ignore_context=True)`, what match templates use): ANY non-empty path over
+    the child / descendant / descendant-or-self / self axes, `self::` steps anywhere, name /
+    `text()` / `comment()` tests, no predicates.  SimplePathStrategy (with the fragments
+    `__init__` computes from `p`) and GenericStrategy report the same at every event, both
+    caller behaviours, every element tree: both mark the nodes
+    `descendant-or-self::first/rest` selects from the root — Generic by `gSteps_sstep_pattern` /
+    `generic_nonpos_marks`, Simple by `simple_marks_pattern` for the fragment list, whose pattern
+    path selects the same nodes by the induction along `__init__`'s loop with
+    `pre = [descendant-or-self::first]` (`Frags.fragments_sem_pattern`); when `__init__` finds the
+    path impossible (`fragments = None`) neither reports anything. -/
+theorem simple_eq_generic_spellings_pattern (p : LocPath) (hp : ∀ s ∈ p, Frags.SStep s) (hne : p ≠ [])
+    (ns : NsMap) (vs : Vars) (skip : Bool)
+    (tag : QName) (attrs : AttrList) (kids : List Node)
+    (hcl : (Node.elem tag attrs kids).clean = true)
+    (hn : AllNodes (NodeFor p ns vs) (.elem tag attrs kids)) :
+    traceCaller (pathTest [p] true (some .simple)).1 ns vs skip
+        (pathTest [p] true (some .simple)).2 (Node.elem tag attrs kids).flatten
+      = traceCaller (pathTest [p] true (some .generic)).1 ns vs skip
+        (pathTest [p] true (some .generic)).2 (Node.elem tag attrs kids).flatten := by
+  have hkcl : cleanList kids = true := by simpa [Node.clean] using hcl
+  have hpp := Frags.sstep_patOf p hp
+  have hpne : Frags.patOf p ≠ [] := by cases p <;> simp_all [Frags.patOf]
+  have hS := Frags.stepsOk_of_sstep ns vs (Frags.patOf p) hpp hpne
+  have hN : AllNodes (NodeFor (Frags.patOf p) ns vs) (.elem tag attrs kids) := by
+    refine AllNodes.imp (fun n h => ?_) _ hn
+    obtain ⟨h1, h2, h3, _⟩ := h
+    refine ⟨h1, h2, h3, ?_⟩
+    intro s hs q hq
+    rw [(hpp s hs).1] at hq; simp at hq
+  have hokG := okVals_run _ (gStep_out (Frags.patOf p) ns vs (fun e => hS.lastResult ns vs e))
+    (Node.elem tag attrs kids) [] gInit
+  have hsem := Frags.fragments_sem_pattern ns (toXVars vs) p hp hne
+  have hsem0 := Frags.fragments_sem ns (toXVars vs) p hp hne
+  simp only [traceCaller, pathTest, List.map_cons, List.map_nil, mkMatcher]
+  congr 1
+  rw [Frags.runTest_simpleL, runTest_generic, Frags.gSteps_sstep_pattern p hp]
+  cases hf : fragments p with
+  | none =>
+    rw [hf] at hsem
+    simp only at hsem
+    obtain ⟨o1, o2⟩ := okVals_replicate (eventLocs (.elem tag attrs kids) [])
+    rw [eventLocs_length] at o1 o2
+    rw [Frags.run_none]
+    apply vals_eq_of_marks (eventLocs (.elem tag attrs kids) []) _ _ o1 hokG (eventLocs_nodup _ [])
+    intro x
+    rw [o2 x, generic_nonpos_marks ns vs _ hS _ hcl hN ⟨x, .elem tag attrs kids⟩, RR_patOf, hsem]
+  | some out =>
+    rw [hf] at hsem hsem0
+    simp only at hsem hsem0
+    obtain ⟨s1, s2⟩ := Frags.simple_marks_pattern ns (toXVars vs) out hsem0.1 tag attrs kids hkcl
+    apply vals_eq_of_marks (eventLocs (.elem tag attrs kids) []) _ _ s1 hokG (eventLocs_nodup _ [])
+    intro x
+    apply Bool.eq_iff_iff.mpr
+    rw [s2 ⟨x, .elem tag attrs kids⟩, generic_nonpos_marks ns vs _ hS _ hcl hN ⟨x, .elem tag attrs kids⟩, RR_patOf,
+      hsem]
+
+-- non-vacuity: the pattern `descendant::a/self::a/b` on <r><x><a><b/></a></x></r> matches the <b/>
+example : runTest (pathTest [pathSelfMerge] true (some .simple)).1 [] []
+    (pathTest [pathSelfMerge] true (some .simple)).2
+    (Node.elem ⟨[], ['r']⟩ [] [Node.elem ⟨[], ['x']⟩ [] [Node.elem ⟨[], ['a']⟩ [] [Node.elem ⟨[], ['b']⟩ [] []]]]).flatten
+    = [.none, .none, .none, .bool true, .none, .none, .none, .none] := by decide +kernel
 
 end Genshi.Props.C17
